@@ -44,6 +44,17 @@ def guard_dsts(g, tests, which):
     return out
 
 
+def vars_from(func, callee_names):
+    """locals all of whose definitions are calls to one of callee_names"""
+    defs = {}
+    for st in walk_local(func.node):
+        if isinstance(st, ast.Assign) and len(st.targets) == 1 and isinstance(st.targets[0], ast.Name):
+            defs.setdefault(st.targets[0].id, []).append(st.value)
+    return {k for k, vs in defs.items() if all(isinstance(v, ast.Call) and last_attr(v) in callee_names or
+                                               (isinstance(v, ast.Constant) and isinstance(v.value, bool)) for v in vs)
+            and any(isinstance(v, ast.Call) for v in vs)}
+
+
 def units(ctx):
     """(cls, method func, region name, stmts) for every implementation body to analyse"""
     P = ctx.prog
@@ -149,7 +160,7 @@ def run(ctx):
                     ctx.check('R2', f'{F}: `return True` at line {n.line} is under a dead/not-started guard', ok, F, 'return-True-unguarded',
                               f'{F} returns True without evidence that the worker is dead', where=where)
                 elif isinstance(v, ast.Constant) and v.value is False:
-                    neg = guard_dsts(g, ('not result',), 'true')
+                    neg = guard_dsts(g, tuple('not ' + v for v in vars_from(f, ('recv_msg',))), 'true')
                     ok = bool(dom.get(n.id, set()) & neg)
                     ctx.check('R2', f'{F}: `return False` at line {n.line} follows a negative reply of the server', ok, F, 'return-False-unguarded',
                               f'{F} returns False without a negative answer from the server', where=where)
@@ -179,7 +190,8 @@ def run(ctx):
             for n in g.nodes:
                 if n.kind == 'stmt' and n.part in (None, 'store') and isinstance(n.stmt, ast.Assign) and in_stmts(n.stmt, stmts) and any(is_self_attr(t, '_dead') for t in n.stmt.targets) \
                         and isinstance(n.stmt.value, ast.Constant) and n.stmt.value.value is True:
-                    ev = guard_dsts(g, ('not alive', 'not ret', 'not result'), 'true') | guard_dsts(g, ('alive', 'ret'), 'false')
+                    lv = vars_from(f, ('is_alive', 'recv_msg'))
+                    ev = guard_dsts(g, tuple('not ' + v for v in lv), 'true') | guard_dsts(g, tuple(lv), 'false')
                     ok = bool(dom.get(n.id, set()) & ev) or 'remote_dead' in norm(n.stmt)
                     ctx.check('R2', f'{F}: `_dead = True` at line {n.line} is set under not-alive evidence', ok, F, 'dead-flag-without-evidence',
                               f'{F} caches the worker as dead without having observed it dead: is_alive() returns False for a running worker from then on', where=loc(f, n.stmt))
@@ -226,13 +238,14 @@ def run(ctx):
                     cur = pm[cur]
                     if isinstance(cur, ast.If) and in_stmts(cur, stmts):
                         conds.append(norm(cur.test))
-                allowed = all(c in ('force', 'self._child.is_alive()', 'self._child.is_alive() and force', 'alive and force', 'alive') or c in DEAD_GUARDS or
+                lvn = vars_from(f, ('is_alive',))
+                allowed = all(c in ('force', 'self._child.is_alive()', 'self._child.is_alive() and force') or c in lvn or c in {v + ' and force' for v in lvn} or c in DEAD_GUARDS or
                               c.startswith('not self.is_alive') for c in conds)
                 ctx.check('R4', f'{F}: the forced kill depends only on `child still alive` and `force`', allowed and any('force' in c for c in conds), F,
                           'force-kill-condition:' + ' & '.join(conds), f'the forced kill in {F} is conditional on {conds}', where=loc(f, k))
                 kn = [n for n in g.nodes if n.stmt is not None and n.part == 'post' and any(x is k for x in n.calls())]
                 jid = {n.id for n in g.nodes if n.stmt is not None and n.part == 'post' and any(last_attr(x) == 'join' and receiver(x) == 'self._child' for x in n.calls())}
-                al = [n for n in g.nodes if n.stmt is not None and n.part == 'eval' and isinstance(n.stmt, ast.Assign) and is_name(n.stmt.targets[0], 'alive')]
+                al = [n for n in g.nodes if n.stmt is not None and n.part == 'eval' and isinstance(n.stmt, ast.Assign) and isinstance(n.stmt.value, ast.Call) and last_attr(n.stmt.value) == 'is_alive']
                 p = g.find_path(kn, lambda x: x in al or x is g.exit, edge_ok=is_flow, node_ok=lambda x: x.id not in jid)
                 ctx.check('R4', f'{F}: the forced kill is followed by a join before liveness is sampled', p is None, F, 'force-kill-without-join',
                           f'after Process.terminate() {F} samples is_alive() without joining: it reports a child that is being killed as alive', where=loc(f, k))
